@@ -20,7 +20,7 @@ RULE = ("each run: a generated stream (or, for hex, any generated input) rendere
 REAL = ["tpmstream.io.hex.marshal", "tpmstream.io.swtpm_log.marshal", "tpmstream.io.pcapng.marshal (+ dpkt)",
         "tpmstream.io.auto.marshal"] + common.REAL_DECODER
 ASSUMPTIONS = ["reference readers in sim/medium.py define 'the bytes a container carries'",
-               "auto-detection is compared only for renderings that start with a hex pair / pcapng magic / binary tag",
+               "auto-detection is compared only for renderings that start with a hex pair / pcapng magic / binary tag and hold at least the two bytes detection looks at",
                "swtpm logs are generated in the documented layout only (no small-alphabet sampling of its scanner)"]
 TIERS = {"quick": {"runs": 20000, "budget": 75}, "thorough": {"runs": 400000, "budget": 780}}
 ALPHABET = [b"0", b"a", b"F", b"7", b" ", b"\n", b"+", b"-", b"_", b"x", b"g", b"\t"]
@@ -34,7 +34,11 @@ def make_case(i, rng, tier):
         t = dict(id="front", front="hex", type="UINT64", data=text.hex(), cc=None, enc=None, strict=True, source="counting")
         return {"input": {"label": "alphabet", "container": "hex", "fault": None}, "tasks": [t], "schedule": {"policy": "sequential"}}
     container = rng.choice(("hex", "hex", "swtpm", "pcapng"))
-    if container == "hex" and rng.random() < 0.4:
+    if rng.random() < 0.025:
+        # a long capture: the text / file crosses the block sizes a buffered reader would use (4096, 8192, 65536 ...)
+        inp = long_stream(rng, rng.choice((1500, 3000, 3000, 6000, 23000)))
+        container = rng.choice(("hex", "hex", "swtpm"))
+    elif container == "hex" and rng.random() < 0.4:
         inp = common.gen_input(rng, common.target_for(i, rng))
     else:
         inp = common.gen_input(rng, ("stream", None))
@@ -70,7 +74,7 @@ def make_case(i, rng, tier):
         for m_ in msgs:
             bounds.append(bounds[-1] + len(m_))
     if container == "hex":
-        blob = medium.write_hex(data, rng)
+        blob = medium.write_hex(data, rng, style="noisy" if (inp["label"].startswith("long-stream") and rng.random() < 0.6) else None)
     elif container == "swtpm":
         blob = medium.write_swtpm_log(data, bounds, rng)
     else:
@@ -103,11 +107,30 @@ def make_case(i, rng, tier):
         starts_with_pair = len(blob) >= 2 and all(c in b"0123456789abcdefABCDEF" for c in blob[:2])
         if root == model.STREAM and (container == "pcapng" or (container == "hex" and starts_with_pair)):
             tasks.append(dict(front, id="auto", front="auto", source="bytes"))
-        if root == model.STREAM and rng.random() < 0.3:
+        if root == model.STREAM and rng.random() < 0.3 and len(carried) >= 2:      # detection looks at two bytes
             tasks.append(dict(common.spec("autobin", root, carried, None, None, strict=strict), front="auto"))
     tasks, sched = common.perturb(rng, tasks, p_by=0.1)
     return {"input": {"label": inp["label"], "container": container, "fault": fault, "message_faults": mfaults},
             "tasks": tasks, "schedule": sched}
+
+
+def long_stream(rng, min_bytes):
+    """well-formed stream of at least min_bytes bytes"""
+    from .. import gen
+    k = gen.Knobs(rng)
+    k.max_buf = max(k.max_buf, 32)
+    g = gen.Gen(rng, k)
+    trees, metas, n = [], [], 0
+    while n < min_bytes:
+        g.nodes = 0
+        cmd, rsp = g.exchange()
+        for t_, meta in ((cmd, dict(kind="command", cc=None, enc=None)), (rsp, dict(kind="response", cc=cmd[2], enc=True if rsp[7] else None))):
+            trees.append(t_)
+            metas.append(meta)
+            n += len(gen.serialise(t_)[0])
+    data, items, bounds = gen.serialise_stream(trees)
+    return dict(root=model.STREAM, data=data, cc=None, enc=None, items=items, arms=g.arms, knobs=k, bounds=bounds, metas=metas,
+                label="long-stream:%d" % len(trees))
 
 
 def check(case):
@@ -119,6 +142,7 @@ def check(case):
     label = "%s in %s%s" % (case["input"]["label"], cont, " with %s" % fault if fault else "")
     blob = bytes.fromhex(tf.spec["data"])
     res.count("container:" + cont)
+    res.count("container-bytes:%s" % ("<4k" if len(blob) < 4096 else "<8k" if len(blob) < 8192 else "<64k" if len(blob) < 65536 else ">=64k"))
     for mf in case["input"].get("message_faults") or ():
         res.count("fault:message-" + mf["kind"])
     if case["input"].get("message_faults"):
